@@ -591,6 +591,15 @@ func caseWorker(req N) (resp N) {
 		case len(deny) > 1:
 			opts = append(opts, risor.WithoutGlobals(deny...))
 		}
+		// the host ALSO supplies a global of its own under a denied top-level name, after the denying option (every
+		// other configuration): the name stays removed - neither the default object nor the host's is reachable
+		if int(id)%2 == 0 {
+			for _, d := range deny {
+				if !strings.Contains(d, ".") {
+					opts = append(opts, risor.WithGlobal(d, object.NewBuiltin("zzsame", hostFn)))
+				}
+			}
+		}
 		// one replacement object per kind and configuration (the spec has one node per kind)
 		repl := map[object.Object]string{}
 		byKind := map[string]object.Object{}
